@@ -1547,12 +1547,19 @@ func (g *Gen) genListener() {
 	case 3:
 		g.do("lst 63 -")
 	case 4:
-		n := g.rng.intn(4)
+		n := pick(g.rng, []int{0, 0, 1, 2, 3})
 		parts := []string{strconv.Itoa(n)}
 		for i := 0; i < n; i++ {
 			parts = append(parts, g.subStr())
 		}
 		g.do("disp " + strings.Join(parts, " "))
+		if n == 0 || g.rng.chance(30) {
+			// sub-listeners added after the dispatcher was installed (an empty dispatcher subscribes to
+			// nothing at that moment)
+			for k := 1 + g.rng.intn(2); k > 0; k-- {
+				g.do("dispadd " + g.subStr())
+			}
+		}
 	default:
 		if g.r.disp != nil {
 			g.do("dispadd " + g.subStr())
